@@ -470,6 +470,87 @@ pub fn foreign_big_m(offset: u64, csize: u64, usize_: u64, method: u16, force: b
     sf
 }
 
+/// A foreign archive behind `prefix` bytes of other data whose only entry has its header `offset` bytes into the archive
+/// (offset >= 4 GiB: the ZIP64 block carries it), re-opened with new_append and finished again (nothing added / one small
+/// entry added): every old value, the header offset included, must still be recovered exactly.
+fn check_prefixed_big_append(prefix: u64, offset: u64, add: bool, st: &mut Stats, order: u64) {
+    st.evals += 1;
+    let case = || json!({"kind": "prefixed-append", "prefix": prefix, "offset": offset, "add": add});
+    let label = format!("archive behind {prefix} prepended bytes, entry header {offset} bytes into it, re-opened for append ({})", if add { "one entry added" } else { "nothing added" });
+    // build at absolute positions, then shift: the builder records absolute offsets, so build it as if there were no prefix
+    // and copy the sparse pages behind the prefix
+    let inner = foreign_big_m(offset, 9, 9, 0, false);
+    let mut sf = SparseFile::new();
+    sf.seek(SeekFrom::Start(0)).unwrap();
+    put(&mut sf, &vec![0x5a; prefix as usize]);
+    // copy the non-zero tail regions of `inner`: local header + data at `offset`, and the directory/end records behind it
+    let total = inner.blen();
+    let mut pos = offset;
+    while pos < total {
+        let n = ((total - pos) as usize).min(1 << 16);
+        let mut chunk = vec![0u8; n];
+        let _ = inner.read_at(pos, &mut chunk);
+        sf.seek(SeekFrom::Start(prefix + pos)).unwrap();
+        put(&mut sf, &chunk);
+        pos += n as u64;
+    }
+    sf.seek(SeekFrom::Start(0)).unwrap();
+    // sanity: the crate reads the prefixed archive before the append round
+    let before = guard(|| {
+        let mut ar = zip::ZipArchive::new(sf.clone()).map_err(|e| format!("open: {e}"))?;
+        let off = ar.offset();
+        let f = ar.by_index(0).map_err(|e| format!("by_index: {e}"))?;
+        Ok::<_, String>((off, f.header_start(), f.size()))
+    });
+    match &before {
+        Ok(Ok((o, h, s))) if (*o, *h, *s) == (prefix, prefix + offset, 9) => {}
+        other => {
+            st.viol("prefixed-append/base-unreadable", format!("{label}: before the append round the reader gives {other:?}"), case(), order);
+            return;
+        }
+    }
+    let r = guard(|| {
+        let mut zw = zip::ZipWriter::new_append(&mut sf).map_err(|e| format!("new_append: {e}"))?;
+        if add {
+            zw.start_file("added", FOpts::m(0).to_zip()).map_err(|e| format!("start_file: {e}"))?;
+            zw.write_all(b"added").map_err(|e| e.to_string())?;
+        }
+        zw.finish().map(|_| ()).map_err(|e| format!("finish: {e}"))
+    });
+    match r {
+        Err(p) => {
+            st.viol(format!("prefixed-append/panic/{}", panic_site(&p)), format!("{label}: {p}"), case(), order);
+            return;
+        }
+        Ok(Err(e)) => {
+            st.viol("prefixed-append/refused", format!("{label}: {e}"), case(), order);
+            return;
+        }
+        Ok(Ok(())) => {}
+    }
+    let after = guard(|| {
+        sf.seek(SeekFrom::Start(0)).map_err(|e| e.to_string())?;
+        let mut ar = zip::ZipArchive::new(sf.clone()).map_err(|e| format!("open: {e}"))?;
+        let n = ar.len();
+        let mut f = ar.by_index(0).map_err(|e| format!("old entry cannot be opened: {e}"))?;
+        let (h, s) = (f.header_start(), f.size());
+        let mut v = vec![];
+        f.read_to_end(&mut v).map_err(|e| format!("old entry cannot be read: {e}"))?;
+        Ok::<_, String>((n, h, s, v))
+    });
+    match after {
+        Ok(Ok((n, h, s, v))) => {
+            if n != 1 + add as usize || h != prefix + offset || s != 9 || v != vec![0u8; 9] {
+                st.viol("prefixed-append/old-entry-changed", format!("{label}: afterwards {n} entries, old entry header_start {h} (was {}), size {s}, content {:?}", prefix + offset, v), case(), order);
+            } else {
+                st.class("prefixed-big-append-ok");
+            }
+        }
+        Ok(Err(e)) => st.viol("prefixed-append/unreadable", format!("{label}: {e}"), case(), order),
+        Err(p) => st.viol(format!("prefixed-append/panic/{}", panic_site(&p)), format!("{label}: {p}"), case(), order),
+    }
+}
+
 fn check_foreign(offset: u64, size: u64, force: bool, st: &mut Stats, order: u64) {
     st.evals += 1;
     let sf = foreign_big(offset, size, force);
@@ -628,6 +709,10 @@ fn check_claimed_raw_copy(claim: u64, raw_open: bool, st: &mut Stats, order: u64
 }
 
 fn replay(case: &Value, st: &mut Stats) {
+    if case["kind"] == "prefixed-append" {
+        check_prefixed_big_append(case["prefix"].as_u64().unwrap_or(0), case["offset"].as_u64().unwrap_or(0), case["add"].as_bool().unwrap_or(false), st, 0);
+        return;
+    }
     match case["kind"].as_str().unwrap_or("") {
         "claimed-rawcopy" => check_claimed_raw_copy(case["claim"].as_u64().unwrap_or(0), case["raw_open"].as_bool().unwrap_or(false), st, 0),
         "calls" => {
@@ -747,6 +832,17 @@ pub fn run(args: &Args) -> i32 {
         }
     });
     ctx.stats.merge(s);
+    // prepended data + a header offset beyond 4 GiB + an append round (the three have to agree on what an offset is relative to)
+    {
+        let cases: Vec<(u64, u64, bool)> = vec![(7, G4 + 5, false), (7, G4 + 5, true), (1000, G4 - 1, false), (0, G4 + 5, false)];
+        let cr = &cases;
+        let s = par_for(cases.len() as u64, 1, |t, st| {
+            let (p, o, a) = cr[t as usize];
+            check_prefixed_big_append(p, o, a, st, (12 << 40) + t);
+        });
+        ctx.stats.merge(s);
+        ctx.bound("prefixed_big_append", json!(cases.iter().map(|c| format!("prefix {} / header offset {} / {}", c.0, c.1, if c.2 { "one entry added" } else { "nothing added" })).collect::<Vec<_>>()));
+    }
     // foreign small archives with ZIP64 values forced in every subset of {uncompressed size, compressed size, offset},
     // sizes differing (compressed payloads), block before/after other extra blocks, with and without a local ZIP64 block
     {
@@ -778,7 +874,11 @@ pub fn run(args: &Args) -> i32 {
                             specs.push(Spec { entries: vec![e.clone(), second.clone()], prefix: vec![0x5a; plen], ..Default::default() });
                             if subset & 7 == 7 && !after {
                                 // ... and in front of forced ZIP64 end records
-                                specs.push(Spec { entries: vec![e, second], prefix: vec![0x5a; plen], force_zip64_eocd: true, comment: b"z".to_vec(), ..Default::default() });
+                                specs.push(Spec { entries: vec![e.clone(), second.clone()], prefix: vec![0x5a; plen], force_zip64_eocd: true, comment: b"z".to_vec(), ..Default::default() });
+                                // ... whose ZIP64 end record carries an extensible data sector (APPNOTE 4.3.14: record size 44 + n)
+                                for n in [1usize, 12, 33] {
+                                    specs.push(Spec { entries: vec![e.clone(), second.clone()], prefix: vec![0x5a; if local { plen } else { 0 }], force_zip64_eocd: true, zip64_ext: vec![0x44; n], comment: if dd == Dd::None { vec![] } else { b"zc".to_vec() }, ..Default::default() });
+                                }
                             }
                         }
                     }
